@@ -130,3 +130,17 @@ claim("C01", "proof",
       "in [-3,4] for 3 factors; JSON documents not produced by __json__ outside; error-message formatting stubbed.",
       "symbolic execution of real operators on shadow instances with table models + z3 (NIA/LIA)",
       "DESIGN.md 4/C01", "internmodel")
+
+claim("C02", "proof",
+      "Identity of interned objects is equality of intern keys (the real __new__/__init__ of Unit, Dimension, "
+      "Prefix are checked against the table model). Both sides of 19 unit laws, 19 dimension laws and 14 "
+      "same-base prefix laws (commutativity, associativity, neutral elements, inverse, a/b = a*b**-1, "
+      "x**a*x**b = x**(a+b), (x**a)**b = x**(a*b), (x**n).root(n) = x, mixed trees up to depth 3) are "
+      "evaluated by the REAL operators on shadow operands with unbounded symbolic exponents in one run; z3 "
+      "proves the key terms equal on every path. Different-base prefixes: same laws for the numeric scale "
+      "in log space within 1e-9.",
+      "Operands satisfy the representation invariant (no zero factor exponents, non-identity prefixes have "
+      "non-zero exponents); <= 3 registered base units per set; (x**a)**b additionally bounded to [-6,6]; one "
+      "doubly-nonlinear dimension law over 2 symbolic positions; mixed-base exponents in [-40,40].",
+      "symbolic execution of real operators on shadow instances + z3 key-term equality (LIA/NIA)",
+      "DESIGN.md 4/C02", "internmodel")
